@@ -36,6 +36,8 @@ type Profile struct {
 	Gates      bool
 	// PreferProduced is the percentage of references biased towards outputs the scripted outcomes produce.
 	PreferProduced int
+	// ForeachFailures lets foreach items end in error / crash (C08, C13).
+	ForeachFailures bool
 	// NeverOK allows never-ending steps only where the reference says no output is pending on them.
 	NeverOK bool
 	// IntArithOnOutputs allows arithmetic / int functions over integers produced by plugins
@@ -302,6 +304,13 @@ func (g *genCtx) addStepSources(s *Step, outcome string) {
 			source{expr: out("outputs", "success"), typ: "obj"},
 			source{expr: &Expr{K: "stage", Step: id, Stage: "outputs"}, typ: "stage"},
 		)
+		if g.p.EngineOuts {
+			g.srcs = append(g.srcs,
+				source{expr: out("failed", "error"), typ: "obj", engine: true},
+				source{expr: &Expr{K: "stage", Step: id, Stage: "failed"}, typ: "stage", engine: true},
+				source{expr: out("enabling", "resolved", "enabled"), typ: "bool", engine: true},
+			)
+		}
 	}
 }
 
@@ -589,6 +598,10 @@ func (g *genCtx) genForeach(c *Case, s *Step, lbl string) {
 		}
 		items.Vals = append(items.Vals, MapVal([]string{"k", "n"}, []*Val{LitVal(StrLit(key)), nv}))
 		b := vplug.Behaviour{Outcome: "success"}
+		if g.p.ForeachFailures && rapid.IntRange(0, 5).Draw(t, fmt.Sprintf("%s.item%d.fail?", lbl, i)) == 0 {
+			b.Outcome = rapid.SampledFrom([]string{"crash", "bad_output"}).Draw(t, fmt.Sprintf("%s.item%d.outcome", lbl, i))
+			g.label("foreach-item:" + b.Outcome)
+		}
 		if g.p.MaxDelayMs > 0 {
 			b.DelayMs = rapid.IntRange(0, g.p.MaxDelayMs).Draw(t, fmt.Sprintf("%s.item%d.delay", lbl, i))
 		}
